@@ -1,0 +1,114 @@
+//go:build verif
+
+// Contracts for the deductive verifier in /verif (comment-only file; see /verif/DESIGN.md).
+
+package direct
+
+// Common shape of a pack request: the payload lies inside the buffer.
+//@ pure packArgsOK(b []byte, payloadStart int, payloadLen int) bool = 0 <= payloadStart && 0 <= payloadLen && payloadStart <= len(b) && payloadLen <= len(b) && payloadStart + payloadLen <= len(b)
+//@ pure unpackArgsOK(b []byte, packetStart int, packetLen int) bool = 0 <= packetStart && 0 <= packetLen && packetStart <= len(b) && packetLen <= len(b) && packetStart + packetLen <= len(b)
+
+// ---------------- direct
+
+//@ func (*DirectPacketClientPacker).PackInPlace
+//@   requires conn.AddrWF(targetAddr) && targetAddr.IsValid()
+//@   modifies p.cachedDomain, p.cachedDomainIP
+//@   ensures isnil(err) ==> packetStart == payloadStart && packetLen == payloadLen
+//@   ensures isnil(err) ==> packetLen <= zerocopy.MaxPacketSizeForAddr(p.mtu, destAddrPort.Addr())
+
+//@ func (DirectPacketClientUnpacker).UnpackInPlace
+//@   modifies nothing
+//@   ensures isnil(err) && payloadSourceAddr == packetSourceAddrPort && payloadStart == packetStart && payloadLen == packetLen
+
+// The direct server re-packs replies only from IP targets when target-only filtering is on (IPPort() panics on a domain).
+//@ func (*DirectPacketServerPackUnpacker).PackInPlace
+//@   requires p.targetAddrOnly ==> p.targetAddr.IsIP()
+//@   modifies nothing
+//@   ensures isnil(err) ==> packetStart == payloadStart && packetLen == payloadLen && packetLen <= maxPacketLen
+
+//@ func (*DirectPacketServerPackUnpacker).UnpackInPlace
+//@   modifies nothing
+//@   ensures isnil(err) && targetAddr == p.targetAddr && payloadStart == packetStart && payloadLen == packetLen
+
+// ---------------- Shadowsocks none
+
+//@ func (*ShadowsocksNonePacketClientPacker).PackInPlace
+//@   requires conn.AddrWF(targetAddr) && packArgsOK(b, payloadStart, payloadLen)
+//@   requires payloadStart >= socks5.LengthOfAddrFromConnAddr(targetAddr)
+//@   modifies b[0:payloadStart]
+//@   ensures packetStart == payloadStart - socks5.LengthOfAddrFromConnAddr(targetAddr) && packetStart >= 0 && packetStart + packetLen == payloadStart + payloadLen
+//@   ensures isnil(err) ==> packetLen <= p.maxPacketSize && destAddrPort == p.serverAddrPort
+//@   ensures !isnil(err) ==> err == zerocopy.ErrPayloadTooBig
+
+//@ func (*ShadowsocksNonePacketClientUnpacker).UnpackInPlace
+//@   requires unpackArgsOK(b, packetStart, packetLen)
+//@   modifies nothing
+//@   ensures isnil(err) ==> payloadStart >= packetStart + socks5.LengthOfAddrFromAddrPort(payloadSourceAddrPort) && payloadLen >= 0 && payloadStart <= packetStart + packetLen && payloadStart + payloadLen == packetStart + packetLen
+
+//@ func (ShadowsocksNonePacketServerPacker).PackInPlace
+//@   requires packArgsOK(b, payloadStart, payloadLen)
+//@   requires payloadStart >= socks5.LengthOfAddrFromAddrPort(sourceAddrPort)
+//@   modifies b[0:payloadStart]
+//@   ensures packetStart == payloadStart - socks5.LengthOfAddrFromAddrPort(sourceAddrPort) && packetStart >= 0 && packetStart + packetLen == payloadStart + payloadLen
+//@   ensures isnil(err) ==> packetLen <= maxPacketLen
+//@   ensures !isnil(err) ==> err == zerocopy.ErrPayloadTooBig
+
+//@ func (*ShadowsocksNonePacketServerUnpacker).UnpackInPlace
+//@   requires unpackArgsOK(b, packetStart, packetLen) && socks5.dcWF(addr(p.domainCache))
+//@   ensures isnil(err) ==> conn.AddrWF(targetAddr) && targetAddr.IsValid()
+//@   ensures isnil(err) ==> payloadStart >= packetStart + socks5.LengthOfAddrFromConnAddr(targetAddr) && payloadLen >= 0 && payloadStart <= packetStart + packetLen && payloadStart + payloadLen == packetStart + packetLen
+
+// ---------------- SOCKS5
+
+//@ func (*Socks5PacketClientPacker).PackInPlace
+//@   requires conn.AddrWF(targetAddr) && packArgsOK(b, payloadStart, payloadLen)
+//@   requires payloadStart >= 3 + socks5.LengthOfAddrFromConnAddr(targetAddr)
+//@   modifies b[0:payloadStart]
+//@   ensures packetStart == payloadStart - 3 - socks5.LengthOfAddrFromConnAddr(targetAddr) && packetStart >= 0 && packetStart + packetLen == payloadStart + payloadLen
+//@   ensures isnil(err) ==> packetLen <= p.maxPacketSize && destAddrPort == p.serverAddrPort
+//@   ensures !isnil(err) ==> err == zerocopy.ErrPayloadTooBig
+
+//@ func (*Socks5PacketClientUnpacker).UnpackInPlace
+//@   requires unpackArgsOK(b, packetStart, packetLen)
+//@   modifies nothing
+//@   ensures isnil(err) ==> payloadStart >= packetStart + 3 + socks5.LengthOfAddrFromAddrPort(payloadSourceAddrPort) && payloadLen >= 0 && payloadStart <= packetStart + packetLen && payloadStart + payloadLen == packetStart + packetLen
+
+//@ func (Socks5PacketServerPacker).PackInPlace
+//@   requires packArgsOK(b, payloadStart, payloadLen)
+//@   requires payloadStart >= 3 + socks5.LengthOfAddrFromAddrPort(sourceAddrPort)
+//@   modifies b[0:payloadStart]
+//@   ensures packetStart == payloadStart - 3 - socks5.LengthOfAddrFromAddrPort(sourceAddrPort) && packetStart >= 0 && packetStart + packetLen == payloadStart + payloadLen
+//@   ensures isnil(err) ==> packetLen <= maxPacketLen
+//@   ensures !isnil(err) ==> err == zerocopy.ErrPayloadTooBig
+
+//@ func (*Socks5PacketServerUnpacker).UnpackInPlace
+//@   requires unpackArgsOK(b, packetStart, packetLen) && socks5.dcWF(addr(p.domainCache))
+//@   ensures isnil(err) ==> conn.AddrWF(targetAddr) && targetAddr.IsValid()
+//@   ensures isnil(err) ==> payloadStart >= packetStart + 3 + socks5.LengthOfAddrFromConnAddr(targetAddr) && payloadLen >= 0 && payloadStart <= packetStart + packetLen && payloadStart + payloadLen == packetStart + packetLen
+
+// ---------------- headroom getters return the package-level headroom values the relay lemmas are stated over
+
+//@ func (DirectPacketClientPacker).ClientPackerInfo
+//@   ensures result.Headroom.Front == 0 && result.Headroom.Rear == 0
+//@ func (DirectPacketClientUnpacker).ClientUnpackerInfo
+//@   ensures result.Headroom.Front == 0 && result.Headroom.Rear == 0
+//@ func (DirectPacketServerPackUnpacker).ServerPackerInfo
+//@   ensures result.Headroom.Front == 0 && result.Headroom.Rear == 0
+//@ func (DirectPacketServerPackUnpacker).ServerUnpackerInfo
+//@   ensures result.Headroom.Front == 0 && result.Headroom.Rear == 0
+//@ func (ShadowsocksNonePacketClientPacker).ClientPackerInfo
+//@   ensures result.Headroom == ShadowsocksNonePacketClientMessageHeadroom
+//@ func (ShadowsocksNonePacketClientUnpacker).ClientUnpackerInfo
+//@   ensures result.Headroom == ShadowsocksNonePacketServerMessageHeadroom
+//@ func (ShadowsocksNonePacketServerPacker).ServerPackerInfo
+//@   ensures result.Headroom == ShadowsocksNonePacketServerMessageHeadroom
+//@ func (ShadowsocksNonePacketServerUnpacker).ServerUnpackerInfo
+//@   ensures result.Headroom == ShadowsocksNonePacketClientMessageHeadroom
+//@ func (Socks5PacketClientPacker).ClientPackerInfo
+//@   ensures result.Headroom == Socks5PacketClientMessageHeadroom
+//@ func (Socks5PacketClientUnpacker).ClientUnpackerInfo
+//@   ensures result.Headroom == Socks5PacketServerMessageHeadroom
+//@ func (Socks5PacketServerPacker).ServerPackerInfo
+//@   ensures result.Headroom == Socks5PacketServerMessageHeadroom
+//@ func (Socks5PacketServerUnpacker).ServerUnpackerInfo
+//@   ensures result.Headroom == Socks5PacketClientMessageHeadroom
